@@ -304,6 +304,7 @@ def run(ctx):
     derived = 0
     n_sib_ok = 0
     sib_ok, captured_ops = set(), set()
+    ctx.rule("shape/built-hstrp", "HSTRP connect / close packets with option lists no capture has (a zero-length option last in the datagram, every documented option type, one option twice), built through the constructors: what the writer serialises the reader takes back")
     ctx.rule("shape/sibling-opcodes", "a captured PDU re-encoded under every other opcode of its service: whatever the writer serialises, the reader of the class parses back to an object (opcodes the writer itself refuses are not implemented and skipped)")
     for shp, (fname, raw, dname) in list(shapes.items()):
         if dname != "HDAP":
@@ -393,19 +394,63 @@ def run(ctx):
         for tg in rcp_tg.values():
             builds.append((rcp_ci, rcp_ops["RadioIDAndRadioIPQueryReply"], "built:RCP", lambda I_, tg=tg: I_.construct(rcp_ci, [], {
                 "opcode": rcp_ops["RadioIDAndRadioIPQueryReply"], "result": res0, "target": tg, "raw_value": b"\x0a\x00\x09\x01"})))
-    for b_ci, m, b_label, mk in builds:
-        def run_b(st, mk=mk):
+    # HSTRP link-management packets with option lists that no capture has: a zero-length option last in the datagram, the
+    # documented option types with their lengths, the same option twice (built through the constructors, no payload)
+    hs_ci, hs_fb = decoders["HSTRP"]
+    hpt_ci = repo.cls(f"{PMOD}.hstrp", "HSTRPPacketType")
+    hop_ci = repo.cls(f"{PMOD}.hstrp", "HSTRPOptions")
+    hot = repo.enum_members(repo.cls(f"{PMOD}.hstrp", "HSTRPOptionType"))
+    opt_lists = [[("RTP", b"")], [("DeviceID", b"\x00\x23\x37\xfa"), ("RTP", b"")], [("RTP", b""), ("ChannelID", b"\x01")],
+                 [("ChannelID", b"\x01"), ("DeviceID", b"\x00\x23\x37\xfa"), ("ChannelID", b"\x01")], [("RTP", b""), ("RTP", b"")],
+                 [("XPTSiteID", b"\x02"), ("XPTIndex", b"\x03"), ("XPTChannelType", b"\x01")]]
+    for flag in ("is_connect", "is_close"):
+        for ol in opt_lists:
+            if not all(n_ in hot for n_, _ in ol):
+                continue
+            def mk_h(I_, flag=flag, ol=ol):
+                pt = I_.construct(hpt_ci, [], {"have_options": True, flag: True})
+                ops = I_.construct(hop_ci, [], {})
+                for n_, d_ in ol:
+                    I_.call(repo.find_method(hop_ci, "add_option"), [ops, hot[n_], d_], {})
+                return I_.construct(hs_ci, [], {"pkt_type": pt, "sn": 1, "options": ops})
+            builds.append((hs_ci, None, "built:HSTRP", mk_h, hs_fb, f"{flag[3:]} with options {'+'.join(n_ + '(' + str(len(d_)) + ')' for n_, d_ in ol)}"))
+    n_hs_built = 0
+    for b_ in builds:
+        b_ci, m, b_label, mk = b_[:4]
+        fbx = b_[4] if len(b_) > 4 else hd_fb
+
+        def run_b(st, mk=mk, fbx=fbx):
             I0.st = st
             ob = mk(I0)
             w = I0.call(repo.find_method(ob.cls, "as_bytes"), [ob], {})
             st.__dict__["sibling_written"] = True
-            ob2 = I0.call(hd_fb, [w], {})
+            ob2 = I0.call(fbx, [w], {})
             if not isinstance(ob2, AObj):
                 raise PathRaise("ValueError", f"reader returns {ob2!r}")
             return ob2, w
         try:
             rb = explore(run_b, max_paths=4)
         except AnalysisError:
+            continue
+        if m is None:
+            # a constructor-built HSTRP packet: whatever the writer serialises the reader must take back as an HSTRP object
+            n_hs_built += 1
+            okb = len(rb) == 1 and rb[0][1][0] == "ok"
+            if not okb and any(k_ == "abort" for _, (k_, _v) in rb):
+                raise AnalysisError(f"constructor-built HSTRP packet: {next(v_ for _, (k_, v_) in rb if k_ == 'abort')}")
+            ctx.ob("shape/built-hstrp", f"HSTRP | built {b_[5] if len(b_) > 5 else n_hs_built}", okb,
+                   "written and read back" if okb else f"the writer serialises it, the reader answers: {rb[0][1][0]} {getattr(rb[0][1][1], 'exc', '')} {getattr(rb[0][1][1], 'msg', rb[0][1][1])}", hs_fb.loc)
+            if not okb:
+                continue
+            ob2, w = rb[0][1][1]
+            bw = bits_of(I0, w)
+            if bw is None or not all(isinstance(b, F) and b.is_const for b in bw):
+                continue
+            rawv = bytes(int("".join(str(b.c) for b in bw[i:i + 8]), 2) for i in range(0, len(bw), 8))
+            shp2 = ("HSTRP", shape_of(ob2))
+            if shp2 not in shapes:
+                shapes[shp2] = (b_label, rawv, "HSTRP")
+                derived += 1
             continue
         if len(rb) == 1 and rb[0][1][0] == "raise" and rb[0][0].__dict__.get("sibling_written") and m.name in IMPLEMENTED_OPCODES.get(b_ci.name, ()):
             ctx.ob("shape/sibling-opcodes", f"{b_ci.name}[{m.name}] | built through the constructor", False,
